@@ -386,8 +386,25 @@ func runWorkers(bi *buildInfo, prop, tier string, extra []string) ([]*codeccheck
 				} else if strings.Contains(se, "stack overflow") || strings.Contains(se, "goroutine stack exceeds") {
 					kind = "stack-overflow"
 				}
+				// a fatal error whose running goroutine shows no frame of the code under test among its innermost frames is
+				// the harness's own (a value enumerator recursing, say): a harness error, never a verdict
+				ownFault := false
+				if kind == "stack-overflow" || kind == "out-of-memory" {
+					if k := strings.Index(se, "[running]"); k >= 0 {
+						inner := strings.Split(se[k:], "\n")
+						if len(inner) > 80 {
+							inner = inner[:80]
+						}
+						it := strings.Join(inner, "\n")
+						ownFault = strings.Contains(it, "verif/") && !strings.Contains(it, "codecwork/") && !strings.Contains(it, "200sc/bebop")
+					}
+				}
 				if len(se) > 1200 {
 					se = se[:600] + "\n...\n" + se[len(se)-600:]
+				}
+				if ownFault {
+					crashes[i] = fmt.Sprintf("worker %s shard %s died with a fatal %s inside the harness itself (last case %q); stderr: %s", filepath.Base(j.bin), j.shard, kind, last, se)
+					break
 				}
 				marker, class, _ := strings.Cut(last, "|")
 				if marker == "" || attempt == 399 || marker == resume {
